@@ -49,8 +49,8 @@ func DrawConfig(t *simcore.Tape, thorough bool) Config {
 		WBlock:     []int{1, 2, 3}[t.CfgDraw(3)],
 		WTrickle:   []int{1, 2, 3}[t.CfgDraw(3)],
 		WFilter:    []int{0, 1, 2}[t.CfgDraw(3)],
-		CorruptDen: []int{3, 4, 6}[t.CfgDraw(3)],
-		VariantDen: []int{3, 4, 6}[t.CfgDraw(3)],
+		CorruptDen: []int{3, 5, 8}[t.CfgDraw(3)],
+		VariantDen: []int{3, 5, 8}[t.CfgDraw(3)],
 	}
 	c.SyncPeers = 1 + t.CfgDraw(c.Peers)
 	if t.CfgDraw(4) == 3 {
@@ -78,6 +78,7 @@ type Sim struct {
 
 	lastTs   map[string]uint32 // highest timestamp generated per key
 	applied  int
+	spends   int
 	rejected int
 	corrupt  int
 	step     int
@@ -109,6 +110,13 @@ func Run(t *testing.T, r *simcore.Run, thorough bool) {
 	}
 	var carried interface{}
 	var foreign string
+	// Real-time watchdog (outside the bubble): a bubble whose goroutines are
+	// blocked in a way synctest does not count as idle would hang forever.
+	wd := time.AfterFunc(90*time.Second, func() {
+		fmt.Fprintf(os.Stderr, "HARNESS: gossipsim run seed=%d did not finish within 90s of real time (bubble stuck)\n", r.Seed)
+		os.Exit(2)
+	})
+	defer wd.Stop()
 	synctest.Test(t, func(t *testing.T) {
 		s := &Sim{r: r, cfg: cfg, byWire: map[string]*msgInfo{}, everChan: map[uint64]*pChan{},
 			everEndpoint: map[[33]byte]bool{}, lastTs: map[string]uint32{}}
@@ -273,7 +281,11 @@ func (s *Sim) run() {
 
 	for s.step < s.cfg.MaxSteps && r.Step() {
 		s.step++
-		ops := []op{{"cu", s.cfg.WCU}, {"ca", s.cfg.WCA}, {"na", s.cfg.WNA},
+		wca := s.cfg.WCA
+		if s.missingGood() {
+			wca *= 4
+		}
+		ops := []op{{"cu", s.cfg.WCU}, {"ca", wca}, {"na", s.cfg.WNA},
 			{"time", s.cfg.WTime}, {"block", s.cfg.WBlock}, {"trickle", s.cfg.WTrickle}}
 		if len(s.order) > 0 {
 			ops = append(ops, op{"dup", s.cfg.WDup})
@@ -357,6 +369,23 @@ func (s *Sim) run() {
 	r.Nontrivial = s.applied >= 3 && s.rejected >= 1
 }
 
+// missingGood: some channel with a sound funding output is not in the graph.
+func (s *Sim) missingGood() bool {
+	for _, c := range s.u.chans {
+		if c.kind != fundOK && c.kind != fundFuture {
+			continue
+		}
+		if _, ok := s.proj.chans[c.scid.ToUint64()]; ok {
+			continue
+		}
+		t := s.w.chain.Lookup(c.scid.BlockHeight, c.scid.TxIndex, c.scid.TxPosition)
+		if t.Exists && !t.Spent {
+			return true
+		}
+	}
+	return false
+}
+
 // mine extends the chain by one block, possibly spending a funding output.
 func (s *Sim) mine() string {
 	r := s.r
@@ -369,7 +398,8 @@ func (s *Sim) mine() string {
 	}
 	var extra []*wire.MsgTx
 	label := "empty"
-	if len(cands) > 0 && r.Chance(1, 3) {
+	if len(cands) > 0 && s.spends < 2 && r.Chance(1, 5) {
+		s.spends++
 		c := cands[r.Draw(len(cands))]
 		t := s.w.chain.Lookup(c.scid.BlockHeight, c.scid.TxIndex, c.scid.TxPosition)
 		extra = append(extra, SpendTx(t.OutPoint))
@@ -522,24 +552,24 @@ func (s *Sim) pickTs(key string, stored uint32) (uint32, string) {
 	}
 	var ts uint32
 	var name string
-	switch r.Draw(8) {
-	case 0, 1, 2:
+	switch m := r.Draw(20); {
+	case m < 10:
 		ts, name = hi+1+uint32(r.Draw(3)), "newer"
-	case 3:
+	case m < 13:
 		ts, name = stored, "equal"
 		if stored == 0 {
 			ts, name = now, "now"
 		}
-	case 4:
+	case m < 16:
 		ts, name = stored-1-uint32(r.Draw(50)), "older"
 		if stored < 100 {
 			ts, name = now-1-uint32(r.Draw(50)), "past"
 		}
-	case 5:
+	case m < 18:
 		ts, name = hi+86400+uint32(r.Draw(100)), "next-day"
-	case 6:
+	case m < 19:
 		ts, name = now+15*86400, "far-future"
-	case 7:
+	default:
 		ts, name = 0, "zero"
 	}
 	if ts > s.lastTs[key] && name != "far-future" {
@@ -737,8 +767,6 @@ func (s *Sim) genMessage(kind string) ([]byte, string) {
 				}
 			case typeNodeAnn:
 				if m, ok := parseNA(w); ok {
-					off := len(w) - len(m.signed) + 2 + (len(m.signed) - len(m.signed[2:]) - 2)
-					_ = off
 					n := u.nodes[r.Draw(len(u.nodes))]
 					i := indexOf(w, m.nodeID)
 					if i >= 0 {
